@@ -10,3 +10,7 @@ open SophiaProofs.C05
 #print axioms output_lines_sorted
 #print axioms complete
 #print axioms sound_distinct_partial
+#print axioms flag_predicate_must_be_iri
+#print axioms relabel_outcomes_explicit
+#print axioms issued_dom_iff
+#print axioms soundFull_refuted
